@@ -853,7 +853,20 @@ def _vec_pop(ctx, p):
     if hasattr(s, 'pop_model'):
         return s.pop_model(ctx, p)
     if not s.dense():
-        raise Unsupported('pop on sparse sequence')
+        # guarded sequence: the last *present* entry goes.  Entry k stays iff it is present and some later entry is present.
+        ents = list(s.ents)
+        later = [False] * len(ents)
+        acc = False
+        for k in reversed(range(len(ents))):
+            later[k] = acc
+            acc = b_or(acc, ents[k][0])
+        out = NONE
+        for k in range(len(ents)):          # the popped value: the present entry without a present successor
+            is_last = b_and(ents[k][0], b_not(later[k]))
+            if is_last is not False:
+                out = ite(is_last, some(ents[k][1]), out) if is_last is not True else some(ents[k][1])
+        ctx.write(p, Seq(tuple((b_and(g, later[k]), v) for k, (g, v) in enumerate(ents))))
+        return out
     if not s.ents:
         return NONE
     ctx.write(p, Seq(s.ents[:-1]))
